@@ -39,6 +39,31 @@ NEEDS = {
     "hindexed-serialize-skips-empty-block": "indexed type with a zero-length block followed by a non-empty one, on the send side",
     "irecv-skips-lookup-behind-filtered-recv": "a filtered receive waiting, a send it rejects queued behind it, then an unfiltered get",
     "queued-filter-skipped-without-match-data": "a filtered receive posted before a plain put (no match data)",
+    "fastpath-drops-straddling-block": "first byte of the message strictly inside a private block of a partially shared buffer",
+    "receiver-framed-with-sender-offset": "partially shared receive buffer at a different offset than the send buffer",
+    "topological-order-ignores-outside-causes": "event set that is not causally closed (a < b < c with b missing)",
+    "history-iterator-keeps-visited-maximal": "a visiting order where an initial event is popped before its descendant reaches it",
+    "on-time-check-uses-stale-action": "timed wait issued before the activity has a model action, completion exactly at the deadline",
+    "wait-any-zero-timeout-ignored": "wait_any_for(0) while no activity of the set is finished",
+    "dax-zero-size-file-drops-edge": "DAX workflow whose only edge between two jobs is a file of size 0",
+    "json-parent-listed-later-dropped": "JSON workflow listing a task before one of its parents",
+    "racing-check-only-last-kept": "4 actors: two unordered racing events plus an older event ordered before only one of them",
+    "clock-skips-actor-with-stale-entry": "5 events with a back-and-forth between two actors, depends on actor-id order",
+    "maxloc-ties-highest-index": "MPI_MAXLOC with at least two contributions holding the maximum at different indexes",
+    "uint64-reduced-as-signed": "MPI_MAX/MPI_MIN on MPI_UINT64_T with one operand >= 2^63 and one below",
+    "rank-negative-multiple-wrap": "periodic dimension, negative coordinate that is an exact multiple of the dimension size",
+    "dims-create-divisibility-regressed": "two non-zero entries each dividing nnodes but not their product, plus a zero entry",
+    "timeout-cancel-swap-with-last": "3 waiters queued, the one timing out at least two slots before the tail, then a release",
+    "release-grants-only-blocked-waiter": "MC/replay mode: release between another actor's SEM_ASYNC_LOCK and its SEM_WAIT",
+    "release-loop-keeps-unblocked-entries": "MC/replay two-simcall wait plus more than n arrivals on one barrier",
+    "s4u-fast-path-last-arriver": "two actors reaching a barrier that holds n-1 waiters in the same scheduling round",
+    "cancel-erases-from-copy": "a wait_for that really times out, later a notify_one meant for another waiter",
+    "signal-grants-only-blocked-waiter": "MC/replay mode: notify between the waiter's CONDVAR_ASYNC_LOCK and CONDVAR_WAIT",
+    "mc-timeout-loses-cancel": "MC-mode timeout of wait_for followed by a notify_one",
+    "from-variable-early-exit": "two modifications in one round (capacity change then resume) or a wake-up from var_free",
+    "no-recursion-through-fatpipe": "closure arriving on a FATPIPE constraint shared by variables that use other constraints",
+    "waitany-count-mismatch": "model checker run with a wait_any set mixing communications and another activity kind",
+    "sem-capacity-clamped": "semaphore with no token left and at least one queued actor when a lock/unlock is reported",
 }
 STATION = {  # name -> how the pinned tests were run with the change
     "unlock-depth-reversed": "pass (alone)", "trylock-depth-dropped": "pass (alone)", "int-rejection-off-by-one": "pass (alone)",
@@ -56,6 +81,13 @@ G = {
     "G4": (["seek-past-end-skips-update", "split-ties-by-actor-id", "remove-erases-tail",
             "hindexed-serialize-skips-empty-block"], "102/104; the 2 failures (tesh-self-background, tesh-self-catch-all-bg-output) are load flakiness: " + FLAKY),
 }
+G.update({
+    "G5": (["irecv-skips-lookup-behind-filtered-recv", "queued-filter-skipped-without-match-data"], "104/104"),
+    "G6": (["rank-negative-multiple-wrap", "topological-order-ignores-outside-causes", "maxloc-ties-highest-index",
+            "on-time-check-uses-stale-action", "racing-check-only-last-kept", "fastpath-drops-straddling-block"], "104/104"),
+    "G7": (["dims-create-divisibility-regressed", "history-iterator-keeps-visited-maximal", "uint64-reduced-as-signed",
+            "wait-any-zero-timeout-ignored", "clock-skips-actor-with-stale-entry", "receiver-framed-with-sender-offset"], "104/104"),
+})
 for g, (names, res) in G.items():
     for n in names:
         STATION[n] = "pass, tested together with the other patches of group %s (disjoint files): %s" % (g, res)
